@@ -201,6 +201,14 @@ func (vm *VM) FindElement(name *IDName) (Element, error) {
 	}
 	elem := scope.GetValue(nameStr)
 	if elem == nil {
+		// the methods and types of a module that has finished loading live on
+		// in its export table (an imported method may use its module's other
+		// definitions)
+		if module := vm.GetCurrentModule(); module != nil {
+			if exported, err := module.GetExportValue(nameStr); err == nil {
+				return exported, nil
+			}
+		}
 		return nil, zerr.NameNotDefined(nameStr)
 	}
 	return elem, nil
@@ -219,6 +227,12 @@ func (vm *VM) FindElementWithModule(name *IDName) (Element, *Module, error) {
 	}
 	elem, moduleID := scope.GetValueWithModuleID(nameStr)
 	if elem == nil {
+		// see FindElement: definitions of the current (already loaded) module
+		if module := vm.GetCurrentModule(); module != nil {
+			if exported, err := module.GetExportValue(nameStr); err == nil {
+				return exported, module, nil
+			}
+		}
 		return nil, nil, zerr.NameNotDefined(nameStr)
 	}
 
